@@ -9,49 +9,49 @@ namespace Liquer
 section proj
 variable {σ τ : Type} {C : CacheOps σ} {S : CacheOps τ} {R : σ → τ → Prop} {ok : τ → CacheOp → Prop}
 
-theorem Sim.get' (sim : Sim C S R ok) {s t} (k : Str) (hr : R s t) (hp : ok t (.get k)) :
+theorem CSim.get' (sim : CSim C S R ok) {s t} (k : Str) (hr : R s t) (hp : ok t (.get k)) :
     R (C.get s k).1 (S.get t k).1 ∧ (C.get s k).2 = (S.get t k).2 := by
   have := sim s t (.get k) hr hp
   simp only [CacheOps.step, outEq, CacheOut.state.injEq] at this
   exact this
 
-theorem Sim.getMeta' (sim : Sim C S R ok) {s t} (k : Str) (hr : R s t) (hp : ok t (.getMeta k)) :
+theorem CSim.getMeta' (sim : CSim C S R ok) {s t} (k : Str) (hr : R s t) (hp : ok t (.getMeta k)) :
     R (C.getMeta s k).1 (S.getMeta t k).1 ∧ (C.getMeta s k).2 = (S.getMeta t k).2 := by
   have := sim s t (.getMeta k) hr hp
   simp only [CacheOps.step, outEq, CacheOut.metadata.injEq] at this
   exact this
 
-theorem Sim.store' (sim : Sim C S R ok) {s t} (st : CState) (hr : R s t) (hp : ok t (.store st)) :
+theorem CSim.store' (sim : CSim C S R ok) {s t} (st : CState) (hr : R s t) (hp : ok t (.store st)) :
     R (C.store s st).1 (S.store t st).1 ∧ (C.store s st).2 = (S.store t st).2 := by
   have := sim s t (.store st) hr hp
   simp only [CacheOps.step, outEq, CacheOut.res.injEq] at this
   exact this
 
-theorem Sim.storeMeta' (sim : Sim C S R ok) {s t} (m : CMeta) (hr : R s t) (hp : ok t (.storeMeta m)) :
+theorem CSim.storeMeta' (sim : CSim C S R ok) {s t} (m : CMeta) (hr : R s t) (hp : ok t (.storeMeta m)) :
     R (C.storeMeta s m).1 (S.storeMeta t m).1 ∧ (C.storeMeta s m).2 = (S.storeMeta t m).2 := by
   have := sim s t (.storeMeta m) hr hp
   simp only [CacheOps.step, outEq, CacheOut.bool.injEq] at this
   exact this
 
-theorem Sim.remove' (sim : Sim C S R ok) {s t} (k : Str) (hr : R s t) (hp : ok t (.remove k)) :
+theorem CSim.remove' (sim : CSim C S R ok) {s t} (k : Str) (hr : R s t) (hp : ok t (.remove k)) :
     R (C.remove s k).1 (S.remove t k).1 ∧ (C.remove s k).2 = (S.remove t k).2 := by
   have := sim s t (.remove k) hr hp
   simp only [CacheOps.step, outEq, CacheOut.bool.injEq] at this
   exact this
 
-theorem Sim.contains' (sim : Sim C S R ok) {s t} (k : Str) (hr : R s t) (hp : ok t (.contains k)) :
+theorem CSim.contains' (sim : CSim C S R ok) {s t} (k : Str) (hr : R s t) (hp : ok t (.contains k)) :
     R (C.contains s k).1 (S.contains t k).1 ∧ (C.contains s k).2 = (S.contains t k).2 := by
   have := sim s t (.contains k) hr hp
   simp only [CacheOps.step, outEq, CacheOut.bool.injEq] at this
   exact this
 
-theorem Sim.keys' (sim : Sim C S R ok) {s t} (hr : R s t) (hp : ok t .keys) :
+theorem CSim.keys' (sim : CSim C S R ok) {s t} (hr : R s t) (hp : ok t .keys) :
     R (C.keys s).1 (S.keys t).1 ∧ ((C.keys s).2).Perm (S.keys t).2 := by
   have := sim s t .keys hr hp
   simp only [CacheOps.step, outEq] at this
   exact this
 
-theorem Sim.clean' (sim : Sim C S R ok) {s t} (hr : R s t) (hp : ok t .clean) : R (C.clean s) (S.clean t) := by
+theorem CSim.clean' (sim : CSim C S R ok) {s t} (hr : R s t) (hp : ok t .clean) : R (C.clean s) (S.clean t) := by
   have := sim s t .clean hr hp
   simp only [CacheOps.step] at this
   exact this.1
@@ -59,13 +59,13 @@ theorem Sim.clean' (sim : Sim C S R ok) {s t} (hr : R s t) (hp : ok t .clean) : 
 end proj
 
 /-- `NoCache` is its own specification -/
-theorem no_sim : Sim noCOps noCOps (fun _ _ => True) (fun _ _ => True) := by
+theorem no_sim : CSim noCOps noCOps (fun _ _ => True) (fun _ _ => True) := by
   intro s t op _ _
   exact ⟨trivial, by cases op <;> simp [CacheOps.step, noCOps, outEq]⟩
 
 /-- `CacheProxy` -/
 theorem proxy_sim {σ τ : Type} {C : CacheOps σ} {S : CacheOps τ} {R : σ → τ → Prop} {ok : τ → CacheOp → Prop}
-    (sim : Sim C S R ok) : Sim (proxyCOps C) (proxyCOps S) R ok := by
+    (sim : CSim C S R ok) : CSim (proxyCOps C) (proxyCOps S) R ok := by
   intro s t op hr hp
   have := sim s t op hr hp
   cases op <;> exact this
@@ -75,9 +75,9 @@ variable {α β α' β' : Type} {A : CacheOps α} {B : CacheOps β} {SA : CacheO
 variable {RA : α → α' → Prop} {RB : β → β' → Prop} {p : CacheOp → Prop}
 
 /-- `cache1 + cache2` -/
-theorem combine_sim (simA : Sim A SA RA (fun _ => p)) (simB : Sim B SB RB (fun _ => p))
+theorem combine_sim (simA : CSim A SA RA (fun _ => p)) (simB : CSim B SB RB (fun _ => p))
     (hrem : ∀ k, p (.remove k)) :
-    Sim (combineOps A B) (combineOps SA SB) (fun s t => RA s.1 t.1 ∧ RB s.2 t.2) (fun _ => p) := by
+    CSim (combineOps A B) (combineOps SA SB) (fun s t => RA s.1 t.1 ∧ RB s.2 t.2) (fun _ => p) := by
   intro s t op ⟨ha, hb⟩ hp
   cases op with
   | get k =>
@@ -133,8 +133,8 @@ theorem combine_sim (simA : Sim A SA RA (fun _ => p)) (simB : Sim B SB RB (fun _
     | none => exact ⟨⟨h3, h4⟩, outEq_of_eq (by rw [e4])⟩
 
 /-- the conditional wrappers (`if_contains`, `if_not_contains`, `if_attribute_equal`, …) -/
-theorem guard_sim (g : CMeta → Bool) (simA : Sim A SA RA (fun _ => p)) (hrem : ∀ k, p (.remove k)) :
-    Sim (guardOps g A) (guardOps g SA) RA (fun _ => p) := by
+theorem guard_sim (g : CMeta → Bool) (simA : CSim A SA RA (fun _ => p)) (hrem : ∀ k, p (.remove k)) :
+    CSim (guardOps g A) (guardOps g SA) RA (fun _ => p) := by
   intro s t op ha hp
   cases op with
   | get k => exact simA s t (.get k) ha hp
